@@ -80,11 +80,13 @@ pub proof fn lemma_nested_array_congruence(a: Expression, b: Expression, ids: Id
     ensures (!(a is Match) && !(b is Match)) ==> sem_nested_array(a, ids, arr) == sem_nested_array(b, ids, arr),
 {
     if !(a is Match) && !(b is Match) {
-        let objs = obj_elems(arr);
+        let objs = arr_elems(arr);
         let sa = obj_results(a, ids, objs);
         let sb = obj_results(b, ids, objs);
         assert forall|k: int| 0 <= k < objs.len() implies sa[k] == sb[k] by {
-            assert(sem3(a, ids, DocM::Obj(objs[k])) == sem3(b, ids, DocM::Obj(objs[k])));
+            assert(sa[k] == elem_result(a, ids, objs[k]));
+            assert(sb[k] == elem_result(b, ids, objs[k]));
+            if objs[k] is Object { assert(sem3(a, ids, DocM::Obj(objs[k]->Object_0)) == sem3(b, ids, DocM::Obj(objs[k]->Object_0))); }
         }
         assert(sa =~= sb);
         assert(sem_nested_array(a, ids, arr) == b3(some_true(sa)));
